@@ -280,6 +280,7 @@ def _exc_case(rng, cls):
 
 
 BIG = 2 ** 60          # far beyond 2^53: an int time that a float cannot hold exactly
+BIGS = [2 ** 31, 2 ** 53, 2 ** 60, 2 ** 63]
 
 
 def _bigint_case(rng, cls):
@@ -287,6 +288,7 @@ def _bigint_case(rng, cls):
     distinct and ordered.  DEVSimulator: events at BIG+k, run_until to int horizons in between (the clock becomes an int),
     small int deltas afterwards; ABMSimulator (which steps every tick) only schedules, peeks and cancels up there."""
     tag = [0]
+    BIG = rng.choice(BIGS) - rng.choice([0, 0, 1, 3])      # noqa: N806  (shadows the module constant on purpose)
 
     def nt():
         tag[0] += 1
@@ -334,6 +336,39 @@ def _wide_tie_case(rng, cls):
 
 
 SIZES = [8, 16, 32, 64, 100, 128, 256, 512]
+BIG_SIZES = [1000, 1024, 2048]          # thousands of events: thorough tier and enumerate_cases only (implementation + oracle)
+GAPS = [2 ** 8, 2 ** 16, 2 ** 18 + 1, 2 ** 20, 2 ** 22 + 1, 2 ** 31, 2 ** 32, 2 ** 53, 2 ** 63]
+
+
+def _idgap_case(rng, cls, gap):
+    """the process-wide event-id counter jumps by `gap` (other simulators created that many events) between schedule calls for the
+    SAME instant: for every ordered pair of priorities an earlier event and, after the jump, a later one; more jumps before events
+    scheduled from inside events and (ABMSimulator) before ticks whose model.step is scheduled late; then every run path.  Order must
+    stay (time, priority, FIFO = id order) however far the ids are apart."""
+    ops = []
+    tag = 0
+    t = 0
+    for p1 in "HDL":
+        for p2 in "HDL":
+            t += S
+            tag += 1
+            inner = [["sched", "abs", t + S * rng.randint(0, 2), False, rng.choice("HDL"), 100 + tag, 0, []]] if rng.random() < 0.4 else []
+            ops.append(["sched", rng.choice(["abs", "rel"]), t, False, p1, tag, rng.randrange(4), inner])
+            ops.append(["idjump", gap + rng.randint(0, 3)])
+            tag += 1
+            ops.append(["sched", "abs", t, False, p2, tag, rng.randrange(4), []])
+            if rng.random() < 0.3:
+                ops.append(["peek", rng.randint(1, 4)])
+    ops.append(["peek", 6])
+    x = rng.random()
+    if x < 0.35:
+        ops += [["next"], ["idjump", gap], ["next"], ["until", 3 * S, False], ["idjump", gap], ["for", 3 * S, False]]
+    elif x < 0.7:
+        ops += [["until", 2 * S, False], ["idjump", gap], ["sched", "abs", 4 * S, False, "D", 90, 0, []], ["for", 2 * S, False], ["next"]]
+    else:
+        ops += [["for", S, False], ["idjump", gap], ["for", S, False], ["idjump", gap], ["for", S, False]]
+    ops += [["peek", 5], ["until", 11 * S, False]]
+    return {"cls": cls, "script": [[2, [["sched", "now", 0, False, "H", 95, 0, []]]]] if cls == "ABM" else [], "fuel": 400, "ops": ops}
 
 
 def _mass_cancel_case(rng, cls, n, frac):
@@ -415,6 +450,13 @@ def gen_cases(rng, tier):
         cases.append(_bigint_case(rng, "DEVS" if rng.random() < 0.7 else "ABM"))
     for _ in range(10 if tier == "quick" else 200):
         cases.append(_wide_tie_case(rng, rng.choice(["ABM", "DEVS"])))
+    # SCALE stream: the event-id counter jumps across 2^8 ... 2^63 between schedule calls for one instant (all priority pairs, every run path)
+    for gap in (GAPS if tier == "quick" else GAPS * 12):
+        for cls in ("ABM", "DEVS"):
+            cases.append(_idgap_case(rng, cls, gap))
+    if tier != "quick":
+        for n in BIG_SIZES:
+            cases.append(_mass_cancel_case(rng, rng.choice(["ABM", "DEVS"]), n + rng.randint(0, 2), rng.choice([0.3, 0.6, 0.9])))
     # many events, many of them cancelled, sizes around the thresholds (a small share here, the full grid in enumerate_cases)
     for k, n in enumerate(SIZES if tier == "quick" else SIZES * 6):
         cases.append(_mass_cancel_case(rng, "DEVS" if (k + rng.randint(0, 1)) % 2 else "ABM", n + rng.randint(1, 9), rng.choice([0.55, 0.75, 0.9])))
@@ -454,6 +496,13 @@ def enumerate_cases(tier, broken=False):
             yield {"cls": cls, "script": [], "fuel": 400, "ops": ops}
     for _ in range(300 if tier == "quick" else 1500):
         yield _inside_case(rng, rng.choice(["ABM", "DEVS"]))
+    for gap in GAPS:
+        for cls in ("ABM", "DEVS"):
+            for _ in range(6):
+                yield _idgap_case(rng, cls, gap)
+    for n in BIG_SIZES:
+        for cls in ("DEVS", "ABM"):
+            yield _mass_cancel_case(rng, cls, n + 1, 0.6)
     for n in SIZES:
         for frac in (0.25, 0.5, 0.75, 0.9):
             for cls in ("DEVS", "ABM"):
